@@ -216,6 +216,15 @@ def apply_reference(repo):
             continue
         renamed[q] = dict(mapping)
         _rename(fi.node, mapping)
+    repo.restructured = {}
+    for q, fi in repo.funcs.items():
+        if fi.is_lambda or q not in ref:
+            continue
+        ref_locals = {n for n, _ in ref[q]["locals"]} | set(ref[q]["params"])
+        n = _increment_through_temp(fi.node, ref_locals) + _ifexp_assignments(fi.node, ref_locals)
+        n += _tail_duplicate(fi.node, ref_locals)
+        if n:
+            repo.restructured[q] = n
     try:
         inl = inline_new_aliases(repo, ref)
     except RecursionError:
@@ -508,6 +517,27 @@ def _reshape(fi, ref_q):
                 if not (isinstance(st, ast.If) and st.body and isinstance(st.body[-1], _TERMINATORS)):
                     continue
                 form = ifs.get(_txt(st.test))
+                if form is None and not st.orelse and i + 1 < len(blk):
+                    # `if not T: A (returns); rest`  where the reference has `if T: rest' else: A'`: nest, exchange, un-negate
+                    pos = _neg(st.test)
+                    if ifs.get(_txt(pos)) == "else" and _always_leaves(blk[i + 1:]):
+                        rest = blk[i + 1:]
+                        del blk[i + 1:]
+                        st.orelse = st.body
+                        st.body = rest
+                        for r in rest:
+                            r._parent = st
+                        new_t = ast.parse(ast.unparse(pos), mode="eval").body
+                        for y in ast.walk(new_t):
+                            ast.copy_location(y, st.test)
+                            for c_ in ast.iter_child_nodes(y):
+                                c_._parent = y
+                        new_t._parent = st
+                        st.test = new_t
+                        _invalidate(st)
+                        n_changed += 1
+                        again = True
+                        break
                 if form == "else" and not st.orelse and i + 1 < len(blk):
                     rest = blk[i + 1:]
                     del blk[i + 1:]
@@ -1022,7 +1052,16 @@ def inline_new_helpers(repo, full_ref):
         # a helper that is one `return <expression>`: the expression replaces the call wherever it stands (it is evaluated
         # exactly where the call was), provided the arguments are simple enough to be evaluated at their places of use
         hbody = [s_ for s_ in h.node.body if not (isinstance(s_, ast.Expr) and isinstance(s_.value, ast.Constant) and isinstance(s_.value.value, str))]
-        if len(hbody) == 1 and isinstance(hbody[0], ast.Return) and hbody[0].value is not None and not stored_params:
+        was_tree = not (len(hbody) == 1 and isinstance(hbody[0], ast.Return))
+        hexpr = _exprify(_search_loops(hbody)) if not stored_params else None
+        if hexpr is not None:
+            hbody = [ast.Return(value=hexpr)]
+        all_sites = sites
+        if was_tree:
+            # a decision tree of returns: as an expression only where the call is not a whole statement (there the statements
+            # themselves are put in place, below)
+            sites = [x for x in all_sites if x[3] in (None, "nested")]
+        if sites and len(hbody) == 1 and isinstance(hbody[0], ast.Return) and hbody[0].value is not None and not stored_params:
             def simple_arg(e):
                 return isinstance(e, (ast.Name, ast.Constant)) or (isinstance(e, ast.Attribute) and simple_arg(e.value)) \
                     or (isinstance(e, ast.UnaryOp) and simple_arg(e.operand)) or (isinstance(e, ast.BinOp) and simple_arg(e.left) and simple_arg(e.right)) \
@@ -1062,15 +1101,23 @@ def inline_new_helpers(repo, full_ref):
                     new = _install(c, expr)
                     new._inlined_from = hq
                     done.setdefault(fi.qual, []).append(h.name)
-                del repo.funcs[hq]
-                if h.cls is not None:
-                    h.cls.methods.pop(h.name, None)
-                    lst = repo.by_name_methods.get(h.name, [])
-                    if h in lst:
-                        lst.remove(h)
-                else:
-                    h.module.funcs.pop(h.name, None)
-                continue
+                for (fi, c, mapping) in plans:
+                    _simplify_bool_contexts(fi.node)
+                sites = [x for x in all_sites if x not in sites]
+                if not sites:
+                    del repo.funcs[hq]
+                    if h.cls is not None:
+                        h.cls.methods.pop(h.name, None)
+                        lst = repo.by_name_methods.get(h.name, [])
+                        if h in lst:
+                            lst.remove(h)
+                    else:
+                        h.module.funcs.pop(h.name, None)
+                    continue
+            else:
+                sites = all_sites
+        else:
+            sites = all_sites
         if any(form is None for (_, _, _, form, _, _) in sites):
             continue
         try:
@@ -1357,3 +1404,207 @@ def _cleanup(fnode):
         if isinstance(n, ast.Try):
             if n.orelse and all(isinstance(x, ast.Pass) for x in n.orelse):
                 n.orelse = []
+
+
+def _exprify(stmts):
+    """a body that is a decision tree of `if` and `return <expr>` as one conditional expression, else None"""
+    if not stmts:
+        return None
+    st, rest = stmts[0], stmts[1:]
+    if isinstance(st, ast.Return):
+        return st.value
+    if isinstance(st, ast.If):
+        body_returns = bool(st.body) and _always_returns(st.body)
+        eb = _exprify(list(st.body) if body_returns else list(st.body) + rest)
+        eo = _exprify(list(st.orelse) + rest) if not (st.orelse and _always_returns(st.orelse)) else _exprify(list(st.orelse))
+        if eb is None or eo is None:
+            return None
+        return ast.IfExp(test=st.test, body=eb, orelse=eo)
+    return None
+
+
+def _always_returns(stmts):
+    if not stmts:
+        return False
+    last = stmts[-1]
+    if isinstance(last, ast.Return):
+        return True
+    if isinstance(last, ast.If):
+        return _always_returns(last.body) and _always_returns(last.orelse)
+    return False
+
+
+def _is_const(e, v):
+    return isinstance(e, ast.Constant) and e.value is v
+
+
+def _neg(e):
+    if isinstance(e, ast.UnaryOp) and isinstance(e.op, ast.Not):
+        return e.operand
+    if isinstance(e, ast.Compare) and len(e.ops) == 1 and type(e.ops[0]) in _COMPL:
+        return ast.Compare(left=e.left, ops=[_COMPL[type(e.ops[0])]()], comparators=e.comparators)
+    return ast.UnaryOp(op=ast.Not(), operand=e)
+
+
+def _bool_form(e):
+    """truth-value preserving simplification of an expression that is only tested: conditional expressions with constant arms
+    become and / or, bool(x) is x, double negations go"""
+    if isinstance(e, ast.IfExp):
+        c, a, b = _bool_form(e.test), _bool_form(e.body), _bool_form(e.orelse)
+        if _is_const(a, True):
+            return ast.BoolOp(op=ast.Or(), values=[c, b])
+        if _is_const(a, False):
+            return ast.BoolOp(op=ast.And(), values=[_neg(c), b])
+        if _is_const(b, False):
+            return ast.BoolOp(op=ast.And(), values=[c, a])
+        if _is_const(b, True):
+            return ast.BoolOp(op=ast.Or(), values=[_neg(c), a])
+        return ast.IfExp(test=c, body=a, orelse=b)
+    if isinstance(e, ast.UnaryOp) and isinstance(e.op, ast.Not):
+        inner = _bool_form(e.operand)
+        if isinstance(inner, ast.UnaryOp) and isinstance(inner.op, ast.Not):
+            return inner.operand
+        return ast.UnaryOp(op=ast.Not(), operand=inner)
+    if isinstance(e, ast.BoolOp):
+        vals = []
+        for v in e.values:
+            v = _bool_form(v)
+            if isinstance(v, ast.BoolOp) and type(v.op) is type(e.op):
+                vals += v.values
+            else:
+                vals.append(v)
+        return ast.BoolOp(op=e.op, values=vals)
+    if isinstance(e, ast.Call) and isinstance(e.func, ast.Name) and e.func.id == "bool" and len(e.args) == 1 and not e.keywords:
+        return _bool_form(e.args[0])
+    return e
+
+
+def _simplify_bool_contexts(fnode):
+    for n in list(walk_own(fnode)):
+        tests = []
+        if isinstance(n, (ast.If, ast.While, ast.IfExp)) and getattr(n, "_parent", None) is not None:
+            tests.append(n.test)
+        for t in tests:
+            if not any(isinstance(x, ast.IfExp) or (isinstance(x, ast.Call) and isinstance(x.func, ast.Name) and x.func.id == "bool") for x in ast.walk(t)):
+                continue
+            new = _bool_form(ast.parse(ast.unparse(t), mode="eval").body)
+            ast.fix_missing_locations(new)
+            if ast.unparse(new) != ast.unparse(t):
+                _install(t, new)
+
+
+def _always_leaves(stmts):
+    """the statement list never falls through its end (ends in return / raise / continue / break on every path)"""
+    if not stmts:
+        return False
+    last = stmts[-1]
+    if isinstance(last, _TERMINATORS):
+        return True
+    if isinstance(last, ast.If):
+        return _always_leaves(last.body) and _always_leaves(last.orelse)
+    return False
+
+
+def _increment_through_temp(fnode, ref_locals):
+    """t = X + c; X = t   (t a local the reference does not have)   ->   X += c; t = X
+    (the second statement is an alias binding that inline_new_aliases removes when nothing rebinds X while t is read)"""
+    n = 0
+    for owner, field, blk in _blocks(fnode):
+        for i in range(len(blk) - 1):
+            a, b = blk[i], blk[i + 1]
+            if isinstance(a, ast.Assign) and len(a.targets) == 1 and isinstance(a.targets[0], ast.Name) and a.targets[0].id not in ref_locals \
+                    and isinstance(a.value, ast.BinOp) and isinstance(a.value.op, (ast.Add, ast.Sub)) and isinstance(a.value.left, ast.Attribute) \
+                    and isinstance(b, ast.Assign) and len(b.targets) == 1 and ast.unparse(b.targets[0]) == ast.unparse(a.value.left) \
+                    and isinstance(b.value, ast.Name) and b.value.id == a.targets[0].id and _chain(a.value.left) is not None \
+                    and not any(isinstance(x, ast.Call) for x in ast.walk(a.value.right)):
+                t = a.targets[0].id
+                aug = ast.parse("%s %s= %s" % (ast.unparse(a.value.left), "+" if isinstance(a.value.op, ast.Add) else "-", ast.unparse(a.value.right))).body[0]
+                ali = ast.parse("%s = %s" % (t, ast.unparse(a.value.left))).body[0]
+                for new, old in ((aug, a), (ali, b)):
+                    for y in ast.walk(new):
+                        ast.copy_location(y, old)
+                        for c_ in ast.iter_child_nodes(y):
+                            c_._parent = y
+                    new._parent = owner
+                blk[i], blk[i + 1] = aug, ali
+                _invalidate(owner)
+                n += 1
+    return n
+
+
+def _ifexp_assignments(fnode, ref_locals):
+    """t = A if C else B   (t a new local)   ->   if C: t = A   else: t = B"""
+    n = 0
+    for owner, field, blk in _blocks(fnode):
+        for i, st in enumerate(blk):
+            if isinstance(st, ast.Assign) and len(st.targets) == 1 and isinstance(st.targets[0], ast.Name) and st.targets[0].id not in ref_locals \
+                    and isinstance(st.value, ast.IfExp) and i + 1 < len(blk) and isinstance(blk[i + 1], ast.Return) \
+                    and sum(1 for x in ast.walk(blk[i + 1]) if isinstance(x, ast.Name) and x.id == st.targets[0].id) == 1:
+                # (only in front of the `return` that consumes it: the pair becomes an if / else of returns, below)
+                t = st.targets[0].id
+                new = ast.parse("if %s:\n    %s = %s\nelse:\n    %s = %s" % (ast.unparse(st.value.test), t, ast.unparse(st.value.body), t, ast.unparse(st.value.orelse))).body[0]
+                for y in ast.walk(new):
+                    ast.copy_location(y, st)
+                    for c_ in ast.iter_child_nodes(y):
+                        c_._parent = y
+                new._parent = owner
+                blk[i] = new
+                _invalidate(owner)
+                n += 1
+    return n
+
+
+def _tail_duplicate(fnode, ref_locals):
+    """S; U   where every way out of the compound statement S ends with `t = <side-effect free value>` (t a new local read only
+    by U, once): U moves to the ends of S with the value in place of t"""
+    n = 0
+    changed = True
+    while changed:
+        changed = False
+        for owner, field, blk in _blocks(fnode):
+            for i in range(len(blk) - 1):
+                s1, u = blk[i], blk[i + 1]
+                if not isinstance(s1, (ast.If, ast.Try)) or not isinstance(u, ast.Return):
+                    continue
+                leaves = _leaves(s1)
+                if not leaves or not all(isinstance(l[-1], ast.Assign) and len(l[-1].targets) == 1 and isinstance(l[-1].targets[0], ast.Name) for l in leaves):
+                    continue
+                names = {l[-1].targets[0].id for l in leaves}
+                if len(names) != 1:
+                    continue
+                t = names.pop()
+                if t in ref_locals or t.startswith("_h"):
+                    continue
+                occ = [x for x in walk_own(fnode) if isinstance(x, ast.Name) and x.id == t]
+                loads = [x for x in occ if isinstance(x.ctx, ast.Load)]
+                if len(loads) != 1 or len(occ) != len(leaves) + 1 or not any(x is loads[0] for x in ast.walk(u)):
+                    continue
+                if not all(_pure_over_locals(l[-1].value, None) or _chain(l[-1].value) is not None or isinstance(l[-1].value, ast.Constant) for l in leaves):
+                    continue
+                if _inside(loads[0], (ast.Lambda, ast.ListComp, ast.SetComp, ast.DictComp, ast.GeneratorExp), u):
+                    continue
+                for l in leaves:
+                    rep = ast.parse(ast.unparse(u)).body[0]
+                    class _R(ast.NodeTransformer):
+                        def visit_Name(self, node, v=l[-1].value):
+                            if node.id == t and isinstance(node.ctx, ast.Load):
+                                return ast.parse("(%s)" % ast.unparse(v), mode="eval").body
+                            return node
+                    rep = _R().visit(rep)
+                    ast.fix_missing_locations(rep)
+                    rep = ast.parse(ast.unparse(rep)).body[0]
+                    parent = l[-1]._parent
+                    for y in ast.walk(rep):
+                        ast.copy_location(y, u)
+                        for c_ in ast.iter_child_nodes(y):
+                            c_._parent = y
+                    rep._parent = parent
+                    l[-1] = rep
+                del blk[i + 1]
+                _invalidate(owner)
+                n += 1
+                changed = True
+                break
+            if changed:
+                break
+    return n
